@@ -87,7 +87,7 @@ def ensure_built(clean=False):
                 except OSError:
                     pass
         # the broker's decision code (Server.subscribe/unsubscribe/publish, Connection.on_*/authenticate/connection_lost/
-        # message_received) -> coq/BrokerGen.v; same fail-closed rule (the *_src_* theorems of C01-C04, C08-C10, C14, C15, C19)
+        # connection_made/message_received, BaseProtocol.message_received) -> coq/BrokerGen.v; same fail-closed rule (the *_src_* theorems of C01-C04, C08-C10, C14, C15, C19)
         rc3, out3, err3, _ = _run(['/venv/bin/python', os.path.join(VERIF, 'harness', 'pytrans3.py')], timeout=120)
         if rc3 != 0:
             trans_note += ' pytrans3 failed: ' + (out3 + err3)[-600:]
